@@ -97,6 +97,10 @@ def probe_initial(inp: Dict[str, Any]) -> Dict[str, Any]:
             rng = np.random.default_rng(inp.get("seed", 0))
             real = torch.as_tensor((s > 0)[..., None].astype(float))
             mol.velocities.add_(torch.as_tensor(rng.normal(size=V.shape) * 0.002) * real)
+            if inp.get("off_origin", True):
+                # a drifting / user-placed molecule is not centred on the origin: momenta are defined about the centre of mass
+                with torch.no_grad():
+                    mol.coordinates.add_(torch.as_tensor(rng.normal(size=(V.shape[0], 1, 3)) * 3.0) * real)
             ek0 = md._kinetic_energy(mol).numpy().copy()
             md._zero_com(mol, remove_angular=bool(inp.get("angular", True)))
             ek1 = md._kinetic_energy(mol).numpy()
@@ -124,6 +128,9 @@ def probe_seeding(inp: Dict[str, Any]) -> Dict[str, Any]:
             torch.randn(burn)
         sc = dict(engine=inp.get("engine", "basic"), stub=True, mols=inp["names"], molid=[0], cad=dict(data=1, coordinates=1, velocities=1, forces=0, xyz=0, print=0, ckpt=0),
                   steps=5, temp=300.0, seed=seed, damp=10.0)
+        if inp.get("preset"):
+            # velocities preset by the user (zero net momentum); the stochastic engines still draw random numbers during the steps
+            sc["preset_velocities"] = inp["preset"]
         r = mdh.in_process_run(sc, tag="c13")[0]
         return r["h5"]["coordinates"]["values"], r["h5"]["velocities"]["values"]
     a = traj(inp["seed"], 0)
@@ -246,6 +253,7 @@ def gen_cases(ctx: Ctx):
     cases.append(("initial", {"names": ["h2"], "temp": 300.0, "engine": "basic", "seed": 5, "pad_to": 3, "angular": False}))
     for eng in (["basic", "langevin", "xl"] if ctx.thorough else ["basic", "langevin"]):
         cases.append(("seeding", {"names": ["h2o"], "seed": int(rng.integers(1, 10**5)), "engine": eng, "burn": int(rng.integers(1, 5000))}))
+    cases.append(("seeding", {"names": ["h2o"], "seed": int(rng.integers(1, 10**5)), "engine": "langevin", "burn": int(rng.integers(1, 5000)), "preset": int(rng.integers(1, 99))}))
     cases.append(("user_velocities", {"names": ["h2o"], "mode": "generic", "seed": 1}))
     cases.append(("user_velocities", {"names": ["h2o"], "mode": "translation", "seed": 2}))
     cases.append(("user_velocities", {"names": ["h2o"], "mode": "zero_momentum", "seed": 3}))
